@@ -80,7 +80,7 @@ Fixpoint leader (s : str) : str * str :=
   end.
 Definition cnorm (v : str) : str :=
   match v with
-  | 45%N :: 45%N :: r => let '(p, rest) := leader r in 45%N :: 45%N :: p ++ collapse (drop_blanks rest) false
+  | 45%N :: 45%N :: r => let '(p, rest) := leader (drop_blanks r) in 45%N :: 45%N :: p ++ collapse (drop_blanks rest) false
   | _ => collapse v false
   end.
 Definition comments (l : list atok) : list str := map (fun t => cnorm (a_val t)) (filter is_verbatim l).
